@@ -82,6 +82,26 @@ BlendWhy(e) ==
   ELSE IF ~AllFin(e.out) THEN "non-finite-result"
   ELSE "ok"
 
+(* colour differences recorded by the C09 driver (diff --fin): both colours in the statement's domain, every returned
+   value finite, no panic.  out = the value both ways round, aux / rect = the same measure through other routes. *)
+DiffNode(ty) == CASE ty = "jab" -> "cam16ucsjab" [] ty = "jmh" -> "cam16ucsjmh" [] OTHER -> ty
+DiffWhy(e) ==
+  IF DiffNode(e.ty) \notin NodeNames THEN "ok"
+  ELSE IF ~(AllFin(e.c1) /\ AllFin(e.c2)) THEN "ok"
+  ELSE IF ~InDomain(DiffNode(e.ty), e.t, e.c1) \/ ~InDomain(DiffNode(e.ty), e.t, e.c2) THEN "ok"
+  ELSE IF e.panic = 1 THEN "panic"
+  ELSE IF ~AllFin(e.out) \/ ~AllFin(e.aux) \/ ~AllFin(e.rect) THEN "non-finite-result"
+  ELSE "ok"
+
+(* contrast (relative luminance and ratio) of two in-range RGB colours *)
+WcagWhy(e) ==
+  IF e.ty \notin NodeNames THEN "ok"
+  ELSE IF ~(AllFin(e.c1) /\ AllFin(e.c2)) THEN "ok"
+  ELSE IF ~InDomain(e.ty, e.t, e.c1) \/ ~InDomain(e.ty, e.t, e.c2) THEN "ok"
+  ELSE IF e.panic = 1 THEN "panic"
+  ELSE IF ~AllFin(e.lum) \/ ~AllFin(e.ratio) THEN "non-finite-result"
+  ELSE "ok"
+
 (* leaving premultiplied alpha by any of its ways (trait, method, Alpha::from, the bare colour's From): finite for
    finite components in [0, 1], also at alpha = 0 *)
 UnpremulWhy(e) ==
@@ -103,6 +123,8 @@ Why(e) == CASE e.ev = "walk" -> WalkWhy(e)
             [] e.ev = "fan" -> FanWhy(e)
             [] e.ev = "fin" -> FinWhy(e)
             [] e.ev = "op" -> OpWhy(e)
+            [] e.ev = "diff" -> DiffWhy(e)
+            [] e.ev = "wcag" -> WcagWhy(e)
             [] e.ev \in {"blend", "compose", "custom", "eqn"} -> BlendWhy(e)
             [] e.ev = "unpremul" -> UnpremulWhy(e)
             [] e.ev = "pfin" -> PfinWhy(e)
